@@ -47,6 +47,13 @@ def c19_1(c: Ctx) -> None:
             c.ok(where(u, w), 'each attempt runs inside `async with asyncio.timeout(timeout)`')
         else:
             c.fail(u, 'attempt not inside `async with asyncio.timeout(timeout)`', 'attempts are not cut off after `timeout` seconds', node=call)
+        if ok:
+            # the timeout budget belongs to the attempt alone: nothing else may suspend inside its scope (a backoff wait slept there is charged against the attempt)
+            others = [a for b in w.body for a in ast.walk(b) if isinstance(a, ast.Await) and not (a.value is call) and not any(x is call for x in ast.walk(a.value))]
+            if not others:
+                c.ok(where(u, w), 'the timeout scope contains no await other than the attempt itself')
+            for a in others:
+                c.fail(u, f'`{U(a)[:60]}` inside the per-attempt timeout scope', 'something other than the attempt (e.g. the backoff wait) runs under the attempt\'s timeout: the attempt gets less than `timeout` seconds', node=a)
     for n in ast.walk(loop):
         if isinstance(n, ast.Continue) or (isinstance(n, ast.Break)):
             c.fail(u, f'`{q.stmt_text(n)}` in the attempt loop', 'the attempt loop is left / continued outside the documented protocol', node=n)
